@@ -296,6 +296,7 @@ func plainText(doc *ref.Doc) string {
 		for k := range rc.Entries {
 			en := rc.Entries[k]
 			en.DashSpaces, en.ExtraQ = true, 0
+			en.Start.H12, en.End.H12 = false, false // the 24-hour clock is the plain notation
 			line := "    " + en.ValueText()
 			if len(en.Summary) > 0 && en.Summary[0] != "" {
 				line += " " + en.Summary[0]
